@@ -216,12 +216,14 @@ def make_occupant(occ, path):
     elif occ == 'array-smaller':
         darr.asarray(path, np.arange(1, dtype='|i1'))
     planted = plant(path, 'file') + plant(path, 'symfile') + plant(path, 'nesteddir')
-    # foreign content inside a sub-directory that carries a Darr directory name
-    sub = os.path.join(path, 'values')
-    os.makedirs(sub, exist_ok=True)
-    with open(os.path.join(sub, 'usernotes.txt'), 'w') as f:
-        f.write('notes kept next to the values\n')
-    planted.append('values/usernotes.txt')
+    # foreign content inside a sub-directory that carries a Darr directory name (a former ragged array, or a user folder
+    # that happens to be called values); the Array occupants keep a directory without such a folder
+    if occ in ('ragged', 'plaindir'):
+        sub = os.path.join(path, 'values')
+        os.makedirs(sub, exist_ok=True)
+        with open(os.path.join(sub, 'usernotes.txt'), 'w') as f:
+            f.write('notes kept next to the values\n')
+        planted.append('values/usernotes.txt')
     return planted
 
 
